@@ -10,6 +10,7 @@ every successful `addEvent` gets a registration id (`registered`), kept by `resc
 import LimnoriaModel.C18.ArgsInv
 import LimnoriaModel.C18.PluginCons
 import LimnoriaModel.C18.Threads
+import LimnoriaModel.C18.HeapLemmas
 namespace C18
 open Py List
 
@@ -256,6 +257,49 @@ example : ∃ s' evs, runPicks exProg
   split at h
   · exact ⟨_, _, by assumption⟩
   · cases h
+
+/-! ## heapq
+
+`Heap.lean` models CPython's `heappush`, `heappop`, `heapify` (`_siftdown`, `_siftup`) on the list
+of schedule entries with `mytuple`'s comparison (due times only).  `HeapFrom h 0` is the heap
+invariant: no entry is earlier than its parent. -/
+
+/-- **`heappush` keeps the heap invariant** and adds exactly the new entry -/
+theorem heap_push_ok (h : Heap.H) (x : Entry) (hh : Heap.HeapFrom h 0) :
+    Heap.HeapFrom (Heap.heappush h x) 0 ∧ (Heap.heappush h x).Perm (x :: h) :=
+  ⟨Heap.heappush_ok h x hh, Heap.heappush_perm h x⟩
+
+/-- **`heapify` makes a heap out of any list** (what `removeEvent` relies on after filtering) -/
+theorem heap_heapify_ok (h : Heap.H) : Heap.HeapFrom (Heap.heapify h) 0 ∧ (Heap.heapify h).Perm h :=
+  ⟨(Heap.heapify_ok h).1, Heap.heapify_perm h⟩
+
+/-- **`heappop` returns a minimum and keeps the invariant**: the entry it returns is not later than
+any entry of the heap, the rest is a heap again and, with that entry, a permutation of the heap -/
+theorem heap_pop_ok (h : Heap.H) (hh : Heap.HeapFrom h 0) (x : Entry) (h2 : Heap.H)
+    (hp : Heap.heappop h = some (x, h2)) :
+    Heap.HeapFrom h2 0 ∧ (∀ y ∈ h, x.t ≤ y.t) ∧ h.Perm (x :: h2) := by
+  obtain ⟨a, b, c⟩ := Heap.heappop_ok h hh x h2 hp
+  refine ⟨a, ?_, c⟩
+  intro y hy
+  obtain ⟨i, hi, e⟩ := mem_iff_getElem.mp hy
+  have := b i hi
+  rw [Heap.at_eq_getElem h i hi, e] at this
+  exact this
+
+/-- **The heap's choice is a valid pick**: when the heap holds the schedule, what `heappop` hands
+to `run()` is an entry of the schedule of minimal due time — the condition `runPicks` and `popAtom`
+put on a pick — so "heappop returns a minimum" is a theorem about the modelled heapq, not an
+assumption; `run_fires_minimum` applies to every run of the real loop. -/
+theorem heap_choice_is_valid_pick (h : Heap.H) (sched : List Entry) (hh : Heap.HeapFrom h 0)
+    (hperm : h.Perm sched) (x : Entry) (h2 : Heap.H) (hp : Heap.heappop h = some (x, h2)) :
+    x ∈ sched ∧ some x.t = minDue sched ∧ Heap.HeapFrom h2 0 ∧ h2.Perm (sched.erase x) :=
+  Heap.heappop_valid_pick h sched hh hperm x h2 hp
+
+-- a heap of five entries: push keeps it a heap, pop hands out the earliest
+example : Heap.heappop (Heap.heappush (Heap.heapify [⟨5, .num 0, [], 0⟩, ⟨3, .num 1, [], 1⟩, ⟨9, .num 2, [], 2⟩,
+      ⟨3, .num 3, [], 3⟩]) ⟨1, .num 4, [], 4⟩) =
+    some (⟨1, .num 4, [], 4⟩, [⟨3, .num 3, [], 3⟩, ⟨3, .num 1, [], 1⟩, ⟨9, .num 2, [], 2⟩, ⟨5, .num 0, [], 0⟩]) := by
+  decide
 
 /-! ## threads and the lock -/
 
